@@ -120,6 +120,18 @@ type c17Contract struct {
 	id  types.FileContractID
 	num int
 	fc  types.V2FileContract // latest revision the harness signed
+
+	renewedTo   *c17Contract // a renewal was negotiated with the host (RenewV2Contract), confirmed or not
+	renewedFrom *c17Contract
+}
+
+// c17Renewal is a renewal that was negotiated with the host but whose transaction the renter
+// holds back: broadcast after `after` more processed batches, or never (after < 0).
+type c17Renewal struct {
+	old, new *c17Contract
+	renewal  types.V2FileContractRenewal
+	after    int
+	done     bool
 }
 
 type c17Node struct {
@@ -141,17 +153,19 @@ type c17Node struct {
 	tip       types.ChainIndex // processed tip
 	batchSize int
 
-	blockNo   map[types.BlockID]int
-	heights   map[types.BlockID]uint64
-	refs      map[types.BlockID]*c17Ref
-	known     []*c17Contract
-	byID      map[types.FileContractID]*c17Contract
-	dead      bool
+	blockNo        map[types.BlockID]int
+	heights        map[types.BlockID]uint64
+	refs           map[types.BlockID]*c17Ref
+	known          []*c17Contract
+	byID           map[types.FileContractID]*c17Contract
+	held           []*c17Renewal
+	dead           bool
 	lastRevertOnly bool
-	sinceScan uint64 // lowest height processed since the last reset (0 = from genesis)
-	hmax      uint64 // highest height processed since the last reset
+	sinceScan      uint64 // lowest height processed since the last reset (0 = from genesis)
+	hmax           uint64 // highest height processed since the last reset
 
 	nBatches, nReorgBatches, nRevised, nFormed, maxDepth int
+	nRenewed, nStaleRenewalBatches                       int
 }
 
 func c17NewNode(t *testing.T, em *verifEmitter, rng *rand.Rand, batchSize int) *c17Node {
@@ -365,6 +379,7 @@ func (n *c17Node) sync() {
 			return
 		}
 		n.tip = next
+		n.countRenewalStates()
 		n.observe()
 		// lifecycle actions, as syncDB triggers them after every batch
 		func() {
@@ -551,7 +566,56 @@ func (n *c17Node) observe() {
 		}
 	}
 	n.checkActions(cs)
-	em.Step("Observe", fmt.Sprintf("OState %s %s %s", coqList(ces), coqList(ies), n.coqOptIdx(storeTip)))
+	em.Step("Observe", fmt.Sprintf("OState %s %s %s %s", coqList(ces), coqList(ies), n.coqOptIdx(storeTip), n.coqRenewed()))
+}
+
+// coqRenewed is the renewed_to column of the host's contract rows, by contract number.
+func (n *c17Node) coqRenewed() string {
+	var rn []string
+	for _, c := range n.known {
+		hc, err := n.cman.V2Contract(c.id)
+		if err != nil {
+			n.t.Fatal(err)
+		}
+		if hc.RenewedTo == (types.FileContractID{}) {
+			continue
+		}
+		num := 0
+		if r, ok := n.byID[hc.RenewedTo]; ok {
+			num = r.num
+		}
+		rn = append(rn, fmt.Sprintf("(%d%%N, %d%%N)", c.num, num))
+	}
+	return coqList(rn)
+}
+
+// countRenewalStates: how often a batch was processed while the host stores the element of a
+// contract that has a renewal negotiated (renewed_to set) but is unresolved on the processed chain.
+func (n *c17Node) countRenewalStates() {
+	ref := n.refs[n.tip.ID]
+	if ref == nil {
+		return
+	}
+	for _, c := range n.known {
+		rc, ok := ref.contracts[c.id]
+		if !ok {
+			continue
+		}
+		hc, err := n.cman.V2Contract(c.id)
+		if err != nil {
+			continue
+		}
+		switch {
+		case c.renewedTo != nil && !rc.resolved:
+			n.nStaleRenewalBatches++
+			n.em.Count("batch:with element of unresolved contract whose renewal is negotiated (renewed_to set)")
+		case c.renewedTo != nil && rc.resolved:
+			n.em.Count("batch:with element of contract resolved by its renewal")
+		}
+		if hc.Status == contracts.V2ContractStatusRejected {
+			n.em.Count("batch:with element of a rejected contract row")
+		}
+	}
 }
 
 // checkActions: every revision, storage proof and expiration the host would broadcast now,
@@ -707,6 +771,207 @@ func (n *c17Node) revise() {
 	n.nRevised++
 }
 
+// renewalTxn builds the renewal transaction of p from the element the host stores NOW for the old
+// contract (as the host's RPC handler does) and funds it from the wallet (no ephemeral setup
+// transaction: the pool moves all proofs of such a set from its basis to the chain tip).
+func (n *c17Node) renewalTxn(p *c17Renewal) (types.ChainIndex, types.V2Transaction, bool) {
+	basis, elem, err := n.cman.V2FileContractElement(p.old.id)
+	if err != nil {
+		n.em.Monitor("contract-element-missing-for-confirmed-contract", fmt.Sprintf("contract %d (renewal being built): %v", p.old.num, err))
+		return types.ChainIndex{}, types.V2Transaction{}, false
+	}
+	cs := n.cm.TipState()
+	txn := types.V2Transaction{FileContractResolutions: []types.V2FileContractResolution{{Parent: elem, Resolution: &p.renewal}}}
+	wbasis, toSign, err := n.w.FundV2Transaction(&txn, cs.V2FileContractTax(p.renewal.NewContract), false)
+	if err != nil {
+		n.em.Count("renew:wallet-cannot-fund")
+		return types.ChainIndex{}, types.V2Transaction{}, false
+	}
+	n.w.SignV2Inputs(&txn, toSign)
+	if wbasis != basis {
+		n.w.ReleaseInputs(nil, []types.V2Transaction{txn})
+		n.em.Count("renew:wallet-basis-differs-from-element-basis")
+		return types.ChainIndex{}, types.V2Transaction{}, false
+	}
+	return basis, txn, true
+}
+
+// poolRenewal hands the renewal transaction to the pool; a refusal because of the parent's proof
+// is a verdict on the stored element (the transaction has no ephemeral input).
+func (n *c17Node) poolRenewal(p *c17Renewal, basis types.ChainIndex, txn types.V2Transaction, when string) {
+	if _, err := n.cm.AddV2PoolTransactions(basis, []types.V2Transaction{txn}); err != nil {
+		n.w.ReleaseInputs(nil, []types.V2Transaction{txn})
+		if strings.Contains(err.Error(), "not present in the accumulator") {
+			n.em.Monitor("renewal-built-from-stored-element-refused-by-pool", fmt.Sprintf("contract %d basis %v (%s): %v", p.old.num, basis, when, err))
+		} else {
+			n.em.Count("renew:pool-refused-other(" + when + ")")
+		}
+		return
+	}
+	n.em.Count("op:renewal-broadcast " + when)
+}
+
+// renew negotiates a renewal of a confirmed, unresolved contract with the host
+// (contracts.Manager.RenewV2Contract: renewed_to is set now, with no chain event).  after == 0:
+// the renewal transaction goes to the pool at once; after > 0: it is held back for that many
+// processed syncs; after < 0: it is never broadcast and its inputs are released (the wallet
+// will spend them otherwise).
+func (n *c17Node) renew(after int) bool {
+	ref := n.refs[n.tip.ID]
+	if ref == nil || n.tip != n.cm.Tip() {
+		return false
+	}
+	var cands []*c17Contract
+	for _, c := range n.known {
+		rc, ok := ref.contracts[c.id]
+		if ok && !rc.resolved && c.renewedTo == nil && n.tip.Height+3 < rc.elem.V2FileContract.ProofHeight {
+			cands = append(cands, c)
+		}
+	}
+	if len(cands) == 0 {
+		return false
+	}
+	c := cands[n.rng.Intn(len(cands))]
+	_, elem, err := n.cman.V2FileContractElement(c.id)
+	if err != nil {
+		n.em.Monitor("contract-element-missing-for-confirmed-contract", fmt.Sprintf("contract %d: %v", c.num, err))
+		return false
+	}
+	cs := n.cm.TipState()
+	old := elem.V2FileContract
+	ext := uint64(6 + n.rng.Intn(8))
+	nfc := types.V2FileContract{
+		Capacity: c.fc.Capacity, Filesize: c.fc.Filesize, FileMerkleRoot: c.fc.FileMerkleRoot,
+		ProofHeight: old.ProofHeight + ext, ExpirationHeight: old.ExpirationHeight + ext,
+		RenterOutput: old.RenterOutput, HostOutput: old.HostOutput,
+		MissedHostValue: old.MissedHostValue, TotalCollateral: old.TotalCollateral,
+		RenterPublicKey: n.renterKey.PublicKey(), HostPublicKey: n.hostKey.PublicKey(),
+	}
+	sh := cs.ContractSigHash(nfc)
+	nfc.HostSignature, nfc.RenterSignature = n.hostKey.SignHash(sh), n.renterKey.SignHash(sh)
+	renewal := types.V2FileContractRenewal{NewContract: nfc, HostRollover: old.HostOutput.Value, RenterRollover: old.RenterOutput.Value}
+	rsh := cs.RenewalSigHash(renewal)
+	renewal.HostSignature, renewal.RenterSignature = n.hostKey.SignHash(rsh), n.renterKey.SignHash(rsh)
+
+	p := &c17Renewal{old: c, renewal: renewal, after: after}
+	basis, txn, ok := n.renewalTxn(p)
+	if !ok {
+		return false
+	}
+	set := rhp4.TransactionSet{Transactions: []types.V2Transaction{txn}, Basis: basis}
+	nc := &c17Contract{id: c.id.V2RenewalID(), num: len(n.known) + 1, fc: nfc, renewedFrom: c}
+	if err := n.cman.RenewV2Contract(set, proto4.Usage{}); err != nil {
+		n.w.ReleaseInputs(nil, []types.V2Transaction{txn})
+		n.em.Step(fmt.Sprintf("Renew %d %d", c.num, nc.num), "ODone CErr")
+		n.em.Count("op:renew-refused-by-host")
+		return false
+	}
+	p.new = nc
+	c.renewedTo = nc
+	n.known = append(n.known, nc)
+	n.byID[nc.id] = nc
+	n.em.Step(fmt.Sprintf("Renew %d %d", c.num, nc.num), "ODone COk")
+	n.nRenewed++
+	// negotiating the same renewal again must fail (the renewal's contract id exists) and change nothing
+	if n.rng.Intn(3) == 0 {
+		cls := "COk"
+		if err := n.cman.RenewV2Contract(set, proto4.Usage{}); err != nil {
+			cls = "CErr"
+		}
+		n.em.Step(fmt.Sprintf("Renew %d %d", c.num, nc.num), "ODone "+cls)
+		n.em.Count("op:renew-again " + cls)
+	}
+	switch {
+	case after == 0:
+		n.em.Count("op:renew, renewal broadcast at once")
+		n.poolRenewal(p, basis, txn, "at once")
+		p.done = true
+	case after > 0:
+		n.em.Count("op:renew, renewal held back")
+		n.w.ReleaseInputs(nil, []types.V2Transaction{txn})
+		n.held = append(n.held, p)
+	default:
+		n.em.Count("op:renew, renewal never broadcast")
+		n.w.ReleaseInputs(nil, []types.V2Transaction{txn})
+		p.done = true
+	}
+	return true
+}
+
+// releaseHeld broadcasts the held-back renewals whose time has come, rebuilt from the element the
+// host stores at that moment.
+func (n *c17Node) releaseHeld() {
+	if n.tip != n.cm.Tip() || n.dead {
+		return
+	}
+	ref := n.refs[n.tip.ID]
+	for _, p := range n.held {
+		if p.done {
+			continue
+		}
+		if p.after > 0 {
+			p.after--
+			continue
+		}
+		p.done = true
+		rc, ok := ref.contracts[p.old.id]
+		if !ok || rc.resolved || n.tip.Height+1 >= rc.elem.V2FileContract.ProofHeight {
+			n.em.Count("renew:held renewal no longer possible")
+			continue
+		}
+		if basis, txn, ok := n.renewalTxn(p); ok {
+			n.poolRenewal(p, basis, txn, "late")
+		}
+	}
+}
+
+// mineEmpty extends the best chain by blocks that contain no transactions (mined on a scratch
+// chain manager whose pool is empty): what is in the node's pool stays unconfirmed.
+func (n *c17Node) mineEmpty(count int) {
+	tip := n.cm.Tip()
+	store, tipState, err := chain.NewDBStore(chain.NewMemDB(), n.network, n.genesis, nil)
+	if err != nil {
+		n.t.Fatal(err)
+	}
+	scratch := chain.NewManager(store, tipState)
+	var prefix []types.Block
+	for h := uint64(1); h <= tip.Height; h++ {
+		idx, _ := n.cm.BestIndex(h)
+		b, ok := n.cm.Block(idx.ID)
+		if !ok {
+			n.t.Fatal("missing block")
+		}
+		prefix = append(prefix, b)
+	}
+	if err := scratch.AddBlocks(prefix); err != nil {
+		n.t.Fatal(err)
+	}
+	var branch []types.Block
+	for i := 0; i < count; i++ {
+		b, ok := coreutils.MineBlock(scratch, types.VoidAddress, 5*time.Second)
+		if !ok {
+			n.t.Fatal("failed to mine")
+		}
+		if err := scratch.AddBlocks([]types.Block{b}); err != nil {
+			n.t.Fatal(err)
+		}
+		branch = append(branch, b)
+	}
+	if err := n.cm.AddBlocks(branch); err != nil {
+		n.t.Fatal(err)
+	}
+	n.em.Count("op:mine-empty-blocks")
+}
+
+// countStatus records which contract statuses the host reports (input distribution).
+func (n *c17Node) countStatus(when string) {
+	for _, c := range n.known {
+		if hc, err := n.cman.V2Contract(c.id); err == nil {
+			n.em.Count(fmt.Sprintf("status:%s %s", when, hc.Status))
+		}
+	}
+}
+
 // reorg replaces the top `depth` blocks by a branch of depth+extra empty blocks mined on a
 // scratch chain manager and handed to the node's chain manager in one piece.
 func (n *c17Node) reorg(depth, extra int) {
@@ -801,7 +1066,8 @@ func (n *c17Node) fund() {
 
 func (n *c17Node) randomSteps(steps int, maxReorg int) {
 	for i := 0; i < steps && !n.dead; i++ {
-		switch r := n.rng.Intn(20); {
+		n.releaseHeld()
+		switch r := n.rng.Intn(24); {
 		case r < 7:
 			addr := types.VoidAddress
 			if n.rng.Intn(3) == 0 {
@@ -822,6 +1088,17 @@ func (n *c17Node) randomSteps(steps int, maxReorg int) {
 		case r < 19:
 			n.reorg(1+n.rng.Intn(maxReorg), 1+n.rng.Intn(2))
 			n.sync()
+		case r < 22:
+			// a renewal negotiated with the host: confirmed in the next block, later, or never
+			if len(n.known) < 9 {
+				n.renew([]int{0, 0, 1, 2, 3, -1, -1}[n.rng.Intn(7)])
+			}
+			n.mine(1, types.VoidAddress)
+			n.sync()
+		case r < 23:
+			// blocks that confirm nothing of what is in the pool (resolutions, renewals stay pending)
+			n.mineEmpty(1 + n.rng.Intn(3))
+			n.sync()
 		default:
 			// several blocks at once, processed in batches
 			n.mine(2+n.rng.Intn(6), types.VoidAddress)
@@ -833,6 +1110,8 @@ func (n *c17Node) randomSteps(steps int, maxReorg int) {
 func (n *c17Node) finish() {
 	n.em.Count(fmt.Sprintf("case:batches=%s", c17Bin(n.nBatches)))
 	n.em.Count(fmt.Sprintf("case:max-reorg-depth=%s", c17Bin(n.maxDepth)))
+	n.em.Count(fmt.Sprintf("case:renewals-negotiated=%s", c17Bin(n.nRenewed)))
+	n.em.Count(fmt.Sprintf("case:batches-with-unconfirmed-renewal=%s", c17Bin(n.nStaleRenewalBatches)))
 	n.em.EndCase(n.nFormed > 0 && n.nReorgBatches > 0)
 }
 
@@ -918,6 +1197,117 @@ func TestVerifC17Chain(t *testing.T) {
 		n.reorg(4, 1)
 		n.sync()
 		n.revise()
+		n.mine(2, types.VoidAddress)
+		n.sync()
+	})
+	// directed 4 (a)+(d): renewal confirmed in the next block, then reorged out; empty blocks keep it
+	// out for a while, then it confirms again
+	run("directed: renewal confirmed in the next block, reorged out, confirmed again", 1, func(n *c17Node) {
+		n.fund()
+		n.formContract(16)
+		n.mine(1, types.VoidAddress)
+		n.sync()
+		n.renew(0)
+		n.mine(1, types.VoidAddress) // renewal confirmed: old contract renewed, new one active
+		n.sync()
+		n.countStatus("renewal confirmed:")
+		n.mine(2, types.VoidAddress)
+		n.sync()
+		n.reorg(3, 1) // the renewal block is disconnected: old contract active again
+		n.sync()
+		n.countStatus("renewal reorged out:")
+		n.mineEmpty(2)
+		n.sync()
+		n.mine(1, types.VoidAddress)
+		n.sync()
+		n.mine(2, types.VoidAddress)
+		n.sync()
+	})
+	// directed 5 (b): renewal confirmed only after several more blocks (batch size 2)
+	run("directed: renewal confirmed after several more blocks", 2, func(n *c17Node) {
+		n.fund()
+		n.formContract(18)
+		n.formContract(12)
+		n.mine(1, types.VoidAddress)
+		n.sync()
+		n.renew(3)
+		for i := 0; i < 5; i++ {
+			n.mine(1+i%2, types.VoidAddress)
+			n.sync()
+			n.releaseHeld()
+		}
+		n.mine(1, types.VoidAddress)
+		n.sync()
+		n.countStatus("late renewal confirmed:")
+		n.reorg(2, 1)
+		n.sync()
+		n.mine(2, types.VoidAddress)
+		n.sync()
+	})
+	// directed 6 (c): renewal never confirmed; the old contract runs into its proof window and the
+	// host resolves it from the stored element; reorg across that resolution (batch size 3)
+	run("directed: renewal never confirmed, the host resolves the old contract itself", 3, func(n *c17Node) {
+		n.fund()
+		n.formContract(6)
+		n.mine(1, types.VoidAddress)
+		n.sync()
+		n.renew(-1)
+		for i := 0; i < 15; i++ {
+			n.mine(1, types.VoidAddress)
+			n.sync()
+		}
+		n.countStatus("renewal never confirmed:")
+		n.reorg(7, 2)
+		n.sync()
+		for i := 0; i < 6; i++ {
+			n.mine(1, types.VoidAddress)
+			n.sync()
+		}
+	})
+	// directed 7: the host's own resolution stays unconfirmed for several blocks (empty blocks), a
+	// reorg happens while it is pending, then it confirms, then a reorg across it
+	run("directed: resolution pending for several blocks", 1, func(n *c17Node) {
+		n.fund()
+		n.formContract(4)
+		n.mine(1, types.VoidAddress)
+		n.sync()
+		n.mineEmpty(3) // proof height reached, the host broadcasts its storage proof
+		n.sync()
+		for i := 0; i < 3; i++ {
+			n.mineEmpty(1) // ... which is not mined
+			n.sync()
+		}
+		n.reorg(2, 1)
+		n.sync()
+		n.mine(1, types.VoidAddress)
+		n.sync()
+		n.mine(2, types.VoidAddress)
+		n.sync()
+		n.reorg(2, 1)
+		n.sync()
+		n.mine(3, types.VoidAddress)
+		n.sync()
+	})
+	// directed 8: the formation confirms only after the contract was rejected (reject buffer 10);
+	// then a renewal that never confirms, and a reorg below the formation
+	run("directed: formation confirmed after the contract was rejected", 2, func(n *c17Node) {
+		n.fund()
+		n.formContract(30)
+		n.mineEmpty(6)
+		n.sync()
+		n.mineEmpty(7)
+		n.sync()
+		n.countStatus("unconfirmed after reject buffer:")
+		n.mine(1, types.VoidAddress)
+		n.sync()
+		n.countStatus("late formation confirmed:")
+		n.mine(2, types.VoidAddress)
+		n.sync()
+		n.renew(-1)
+		n.mine(2, types.VoidAddress)
+		n.sync()
+		n.reorg(6, 1)
+		n.sync()
 		n.mine(2, types.VoidAddress)
 		n.sync()
 	})
